@@ -95,7 +95,7 @@ HARNESS_MODS = {
 }
 
 
-def build_harness(name, pkg=".", out=None, tags="verif"):
+def build_harness(name, pkg=".", out=None, tags="verif", extra=()):
     """go build one harness program against the current tree (REPO, default /repo).
     The module file is copied to the build directory (-modfile) with its `replace => /repo`
     lines pointed at REPO and the repo's own go.sum beside it, so the harness sources stay
@@ -114,7 +114,7 @@ def build_harness(name, pkg=".", out=None, tags="verif"):
         data = open(src, "rb").read() if os.path.exists(src) else b""
         with open(md + "/go.sum", "wb") as f:
             f.write(data)
-        rc, o = sh(["go", "build", "-modfile", md + "/go.mod", "-tags", tags, "-o", out, pkg], cwd=hd, timeout=900)
+        rc, o = sh(["go", "build", "-modfile", md + "/go.mod", "-tags", tags] + list(extra) + ["-o", out, pkg], cwd=hd, timeout=900)
     if rc != 0:
         raise BuildError("go build of harness '%s' (%s) against %s failed:\n%s" % (name, pkg, REPO, o[-4000:]))
     return out
